@@ -379,7 +379,7 @@ SeedFam(f, ty) ==
     [] f = "csr_33"    -> CsrSeeds(ty, 3, 3, AllPats(3, 3))
     [] f = "csr_perm"  -> CsrSeeds(ty, 3, 2, {P \in AllPats(3, 2) : Cardinality(P) \in {2, 3}})
                           \cup CsrSeeds(ty, 2, 3, {{<<1, 2>>, <<2, 1>>, <<2, 3>>}}) \cup CsrSeeds(ty, 3, 3, {{<<1, 2>>, <<1, 3>>, <<3, 1>>, <<3, 3>>}})
-    [] f = "csr_44"    -> CsrSeeds(ty, 4, 4, {P \in AllPats(4, 4) : Cardinality(P) \in {5, 6}})
+    [] f = "csr_44"    -> CsrSeeds(ty, 4, 4, {P \in AllPats(4, 4) : Cardinality(P) = 5})
     [] f = "csr_pal"   -> CsrSeeds(ty, 1, 1, {{<<1, 1>>}}) \cup CsrSeeds(ty, 3, 5, {{}})
                           \cup CsrSeeds(ty, 2, 3, {{<<2, 1>>, <<2, 3>>}}) \cup CsrSeeds(ty, 3, 3, {(1..3) \X (1..3)})
                           \cup CsrSeeds(ty, 3, 3, {{<<2, 1>>, <<2, 2>>, <<2, 3>>}, Tri(3)})
